@@ -47,6 +47,10 @@ void cm_std(cm_model_t *m) {
 	snprintf(t->per[2].id, 24, "horn"); t->per[2].bit = 9;
 	t = &m->t[1]; snprintf(t->id, 24, "train2"); t->addrl = 0x02; t->addrh = 0x03; t->steps = 28; t->nper = 1; snprintf(t->per[0].id, 24, "light"); t->per[0].bit = 4;
 }
+void cm_add_function_train(cm_model_t *m) {
+	cm_train_t *t = &m->t[m->nt++]; memset(t, 0, sizeof *t); snprintf(t->id, 24, "train3"); t->addrl = 0x45; t->addrh = 0x00; t->steps = 126;
+	for (int bit = 0; bit < 32; bit++) { if (bit >= 5 && bit <= 7) continue; cm_tper_t *p = &t->per[t->nper++]; snprintf(p->id, 24, "f%d", bit); p->bit = (uint8_t) bit; }
+}
 int cm_is_track_output(const cm_board_t *b) { return (b->uid[0] & (1 << 4)) != 0; }
 int cm_is_booster(const cm_board_t *b) { return (b->uid[0] & (1 << 1)) != 0; }
 int cm_board_connected(const cm_model_t *m, int bi) { while (bi >= 0) { if (!m->b[bi].present) return 0; bi = m->b[bi].parent; } return 1; }
